@@ -60,7 +60,9 @@ type Exec struct {
 	usedContracts map[string]bool
 	aborted bool
 	trackCache map[*Contract]map[string]bool
+	callCovers bool // thorough tier: consistency cover before/after every contract application
 	errSiteCache map[*Contract]map[string]bool
+	retSiteCache map[*Contract]map[string]bool
 	curFr *Frame
 	wcount int
 	topFrame *frameDecl
@@ -505,6 +507,12 @@ func (ex *Exec) havocLoop(st *State, fr *Frame, head *ssa.BasicBlock) {
 			if cc != nil {
 				if hn := ex.errSite(st, fr, ins, cc); hn != "" {
 					ms.write(hn, SortIface)
+				}
+				if base := ex.retSite(st, fr, ins, cc); base != "" {
+					res := cc.Signature().Results()
+					for i := 0; i < res.Len(); i++ {
+						ms.write(fmt.Sprintf("%s.%d", base, i), sortOf(res.At(i).Type()))
+					}
 				}
 			}
 		}
